@@ -10,6 +10,7 @@ Variable rules : key -> rule.
 Variable env : key -> N.
 Variable F : key -> N -> list value -> list N -> N -> N.
 Variable rank : key -> nat.
+Variable R : key -> N -> rule.
 Hypothesis Hrank : wf_rank rules rank.
 Hypothesis Hdisc : forall k, r_disc (rules k) = [].
 Notation cvK := (cvK rules env F rank).
@@ -18,12 +19,12 @@ Notation n1 := (n1 rules).
 Notation n2 := (n2 rules).
 Notation key_of_slot := (key_of_slot rules env F rank).
 Notation task_ok2 := (task_ok2 rules env F rank).
-Notation concl := (concl rules F).
-Notation rowok := (rowok rules F).
+Notation concl := (concl F R).
+Notation rowok := (rowok F R).
 Notation BT := (BT rules env F rank).
-Notation BC := (BC rules F).
-Notation BS := (BS rules env F rank).
-Notation BInv := (BInv rules env F rank).
+Notation BC := (BC rules F R).
+Notation BS := (BS rules env F rank R).
+Notation BInv := (BInv rules env F rank R).
 
 (* a task with no request left has recorded every key it asked for, and all of them are complete *)
 Lemma task_deps_recorded s t ti : task_ok2 s t ti -> (forall rq, Oreq2 s rq -> iq_task rq <> Some t) ->
@@ -55,13 +56,14 @@ Proof.
 Qed.
 
 Hypothesis Hwfd : wf_disc rules.
+Hypothesis HRt : table_ok rules R.
 
 (* the clean value of a rule is the conclusion of a row whose recorded inputs hold their clean values *)
-Lemma concl_of_clean s t v : Some v = cvK t ->
+Lemma concl_of_clean s t v : res_sig (res_of s t) = r_sig (rules t) -> Some v = cvK t ->
   (forall x, In x (r_req (rules t) ++ bkK t ++ r_disc (rules t)) -> In (mkDep x false false) (deps s t) /\ stored s x = cvK x) ->
   concl s t v /\ (r_obs (rules t) = false -> snd v = 0).
 Proof.
-  intros Hv Hin. unfold ImplVal1.cvK in Hv. rewrite (cvk_unfold rules env F rank Hrank t) in Hv. cbn zeta in Hv. inversion Hv as [Hv']. clear Hv.
+  intros Hsg Hv Hin. unfold ImplVal1.cvK in Hv. rewrite (cvk_unfold rules env F rank Hrank t) in Hv. cbn zeta in Hv. inversion Hv as [Hv']. clear Hv.
   assert (Hreq : map (stored s) (r_req (rules t)) = map cvK (r_req (rules t))).
   { apply map_ext_in. intros x Hx. apply Hin. apply in_or_app. now left. }
   assert (Hbk : branch_keys (rules t) (map (stored s) (r_req (rules t))) = bkK t) by (rewrite Hreq; reflexivity).
@@ -69,7 +71,7 @@ Proof.
   { apply map_ext_in. intros x Hx. destruct (Hin x) as [_ ->]; [apply in_or_app; right; apply in_or_app; now right|].
     unfold ImplVal1.cvK. rewrite (cvk_unfold rules env F rank Hrank x). cbn [payload_of snd]. unfold obs. now rewrite (Hwfd t x Hx). }
   split.
-  - unfold ImplInc1.concl. cbn zeta. rewrite Hbk, Hdc. split.
+  - unfold ImplInc1.concl, rule_of. cbn zeta. rewrite Hsg, (HRt t), Hbk, Hdc. split.
     + cbn [fst snd]. f_equal. rewrite map_app, Hreq.
       assert (Hb2 : map (stored s) (bkK t) = map cvK (bkK t)) by (apply map_ext_in; intros x Hx; apply Hin; apply in_or_app; right; apply in_or_app; now left).
       rewrite Hb2, !map_map. f_equal.
@@ -135,11 +137,11 @@ Proof.
   intros HI (HBT & _ & _) Hq. unfold step_fintask. rewrite Hq.
   pose proof HI as (Hn & HT & HII & HS).
   destruct (t_ft ctx0 s HT t) as (ti & Hg & Hk & Hp); [rewrite Hq; now left|]. exists ti.
-  assert (R : retired s (finish_task (upd_fintasks s rest) t) t ti rest (map dummy_of (ti_disc ti))).
+  assert (Rt : retired s (finish_task (upd_fintasks s rest) t) t ti rest (map dummy_of (ti_disc ti))).
   { apply finish_task_retired; auto; [apply HT|]. intros k. destruct (N.eq_dec k t) as [->|Hne]; [left; rewrite Hk; discriminate|now right]. }
   pose proof (fun k => finish_task_rinfo s t rest ti k Hg Hk) as RI. destruct (finish_task_misc s t rest ti Hg Hk) as (Mu & Me).
   set (s' := finish_task (upd_fintasks s rest) t) in *.
-  destruct R as [rt_nd0 rt_kind0 rt_paused0 rt_deferred0 rt_deps0 rt_sum_p0 rt_sum_d0 rt_tasks0 rt_toscan0 rt_fininreq0 rt_inreq0 rt_dummies0 rt_ready0 rt_fintasks0 rt_out0 rt_nf0].
+  destruct Rt as [rt_nd0 rt_kind0 rt_paused0 rt_deferred0 rt_deps0 rt_sum_p0 rt_sum_d0 rt_tasks0 rt_toscan0 rt_fininreq0 rt_inreq0 rt_dummies0 rt_ready0 rt_fintasks0 rt_out0 rt_nf0].
   assert (Hnd : ti_disc ti = map mkd (r_disc (rules t))) by (apply (k2_disc _ _ _ _ _ _ _ (b_task _ _ _ _ _ _ HBT t ti Hg)); rewrite Hq; now left).
   assert (Hw0 : ti_wait ti = 0%nat) by (apply (t_cw ctx0 s HT t ti Hg Hk)).
   assert (Hz : (cnt_i t (cx_fi ctx0) + outstanding_count s t = 0)%nat) by (rewrite <- (i_wc rules ctx0 s HII t ti Hg); exact Hw0).
@@ -264,7 +266,7 @@ Qed.
 
 Lemma BC_fin : BC s'.
 Proof.
-  destruct HB as (HT & [C1 C2 C3 C4 C5 C6 C7] & _).
+  destruct HB as (HT & [C1 C2 C3 C4 C6 C7] & _).
   destruct (fe_self _ _ _ _ _ E) as (F1 & F2 & F3 & F4 & F5).
   destruct (task_deps_recorded s t ti fe_ti (fe_no _ _ _ _ _ E)) as [Hrec Hdcur].
   constructor.
@@ -274,27 +276,24 @@ Proof.
     + rewrite fe_cAt, (fe_bAt k Hne). apply C2. now apply fe_idle.
   - intros k. rewrite (fe_ep _ _ _ _ _ E), fe_cAt. destruct (N.eq_dec k t) as [->|Hne]; [rewrite F3; split; [lia|apply C3]|rewrite (fe_bAt k Hne); apply C3].
   - intros k. rewrite (fe_ep _ _ _ _ _ E), (fe_kind _ _ _ _ _ E). destruct (N.eqb k t) eqn:E0; [reflexivity|]. apply N.eqb_neq in E0. rewrite (fe_bAt k E0). apply C4.
-  - intros k. destruct (N.eq_dec k t) as [->|Hne].
-    + intros _. rewrite F5. apply (k2_fsig _ _ _ _ _ _ _ fe_ti fe_infin).
-    + rewrite (fe_bAt k Hne), (fe_res _ _ _ _ _ E k Hne). apply C5.
   - intros k Hi Hb Hnc. assert (Hne : k <> t) by (intros ->; apply Hnc; apply fe_curk_t).
-    apply (rowok_step rules F s s' k (fe_res _ _ _ _ _ E k Hne)).
+    apply (rowok_step F R s s' k (fe_res _ _ _ _ _ E k Hne)).
     + intros d _ _ _. left. rewrite fe_stored, fe_cAt. split; auto. lia.
     + apply C6; [now apply fe_idle|now rewrite <- (fe_bAt k Hne)|]. intros H. apply Hnc. now apply fe_curk1.
   - intros k Hc. unfold cstruct. cbn zeta. destruct (fe_curk2 k Hc) as [->|Hc0].
     + (* the finished task: everything it asked for is recorded and complete; its discovered dependencies are about to be demanded *)
       assert (Hreq : map (stored s') (r_req (rules t)) = map cvK (r_req (rules t))).
       { apply map_ext_in. intros y Hy. rewrite fe_stored. apply (b_cur _ _ _ _ _ _ HT). apply (Hdcur (mkDep y false false)). apply Hrec. apply in_or_app. now left. }
-      rewrite Hreq. change (branch_keys (rules t) (map cvK (r_req (rules t)))) with (bkK t). rewrite fe_deps_t. split; [|split].
+      rewrite Hreq. change (branch_keys (rules t) (map cvK (r_req (rules t)))) with (bkK t). rewrite fe_deps_t. split; [rewrite F5; apply (k2_fsig _ _ _ _ _ _ _ fe_ti fe_infin)|]. split; [|split].
       * intros y Hy. split; [apply in_or_app; left; now apply Hrec|]. apply fe_curk1. apply (Hdcur (mkDep y false false)). now apply Hrec.
       * intros y Hy. apply in_or_app. right. change (mkDep y false false) with (mkd y). now apply in_map.
       * intros d Hd. apply in_app_or in Hd. destruct Hd as [Hd|Hd].
         -- split; [apply in_or_app; left; apply (k2_dmen _ _ _ _ _ _ _ fe_ti d Hd)|left; now apply fe_curk1, Hdcur].
         -- apply in_map_iff in Hd. destruct Hd as (y & <- & Hy). cbn [mkd d_key]. split; [apply in_or_app; now right|]. right. split; auto. right. now apply fe_dummy.
     + assert (Hne : k <> t) by (intros ->; destruct Hc0 as [Hk _]; rewrite (fe_k _ _ _ _ _ E) in Hk; discriminate).
-      destruct (C7 k Hc0) as (S1 & S2 & S3). unfold cstruct in S1, S2, S3. cbn zeta in S1, S2, S3.
+      destruct (C7 k Hc0) as (S0 & S1 & S2 & S3). unfold cstruct in S0, S1, S2, S3. cbn zeta in S0, S1, S2, S3.
       assert (Hreq : map (stored s') (r_req (rules k)) = map (stored s) (r_req (rules k))) by (apply map_ext; intros; apply fe_stored).
-      rewrite Hreq, (fe_deps k Hne). split; [|split].
+      rewrite Hreq, (fe_deps k Hne), (fe_res _ _ _ _ _ E k Hne). split; [exact S0|]. split; [|split].
       * intros y Hy. destruct (S1 y Hy) as [H1 H2]. split; auto. now apply fe_curk1.
       * exact S2.
       * intros d Hd. destruct (S3 d Hd) as [Hm Hst]. split; auto. destruct Hst as [Hcd|(Hdd & [Hp|Hp])]; [left; now apply fe_curk1| |].
@@ -318,11 +317,11 @@ Proof.
   constructor.
   - intros rq Hrq j d Hj. pose proof (Hsnt rq Hrq) as Hnt.
     rewrite (fe_deps _ Hnt), fe_cAt, (fe_bAt _ Hnt). intros Hn. destruct (S1 rq (Hsr rq Hrq) j d Hj Hn) as [Hc Hf]. split; auto. now apply fe_curk1.
-  - intros k Hk. destruct (Hne k (or_introl Hk)) as [Hnt Hkk]. rewrite Hkk in Hk. destruct (S2 k Hk) as (B1 & B2 & B3).
+  - intros k Hk. destruct (Hne k (or_introl Hk)) as [Hnt Hkk]. rewrite Hkk in Hk. destruct (S2 k Hk) as (B0 & B1 & B2 & B3).
     rewrite (fe_bAt k Hnt), (fe_res _ _ _ _ _ E k Hnt). destruct (fe_lists _ _ _ _ _ E k) as (-> & -> & _). auto.
-  - intros k Hk. destruct (Hne k (or_intror Hk)) as [Hnt Hkk]. rewrite Hkk in Hk. destruct (S3 k Hk) as ((v & Hv & Hcv & Hco) & Hd & Hb & Hpe).
-    split; [|split; [|split]].
-    + exists v. split; [now rewrite fe_stored|]. split; auto. apply (concl_same rules F s s' k v (fe_deps k Hnt)); auto. intros y _. apply fe_stored.
+  - intros k Hk. destruct (Hne k (or_intror Hk)) as [Hnt Hkk]. rewrite Hkk in Hk. destruct (S3 k Hk) as ((v & Hv & Hcv & Hco) & Hd & Hb & Hpe & Hsg0).
+    split; [|split; [|split; [|split]]]; [| | | |now rewrite (fe_res _ _ _ _ _ E k Hnt)].
+    + exists v. split; [now rewrite fe_stored|]. split; auto. apply (concl_same F R s s' k v (f_equal res_sig (fe_res _ _ _ _ _ E k Hnt)) (fe_deps k Hnt)); auto. intros y _. apply fe_stored.
     + intros d. rewrite (fe_deps k Hnt). intros Hin. now apply fe_curk1, Hd.
     + now rewrite (fe_bAt k Hnt).
     + destruct Hpe as [(rq & H1 & H2)|(rq & H1 & H2)]; [left; exists rq; rewrite (fe_toscan _ _ _ _ _ E); split; auto; apply in_or_app; now right|].
